@@ -1,5 +1,5 @@
 /*UNIT
-{"props": ["C06"], "src": ["lib/ipc_setup.c"], "mode": "plain",
+{"props": ["C06", "C03"], "src": ["lib/ipc_setup.c"], "mode": "plain",
  "kind": "bounded", "bound": "the handshake record arrives in at most 2 pieces plus one EAGAIN per call (every piece pattern of the receive loop itself is covered by ipc.recv_msghdr); everything else symbolic",
  "functions": ["process_auth", "qb_ipc_us_recv_msghdr (inlined)", "qb_ipc_auth_creds (inlined)", "destroy_ipc_auth_data (inlined)"],
  "stubs": ["recvmsg (any count / error; record bytes arbitrary, chosen by the harness; control buffer: none, one SCM_CREDENTIALS or one other message)", "__cmsg_nxthdr (returns NULL: at most one control message fits the 32-byte control buffer)", "setsockopt/close/shutdown (counted)", "poll_fns.dispatch_del (counted)", "qb_ipcs_unref (counted)", "qb_ipcs_connection_alloc (marks that handle_new_connection was entered, then fails with NULL)"],
